@@ -967,6 +967,20 @@ pub fn analyse(case: &RegCase, res: &RunResult) -> CaseReport {
                         (lo..=hi).map(|k| states[k].get(&d.sig).cloned().unwrap_or_default()).collect::<Vec<_>>()
                     ),
                 );
+                if hi == lo {
+                    // no mutation was published during this delivery: the registry was in exactly
+                    // one state of the simple model, and the delivery disagrees with it
+                    rep.viol(
+                        "C05/log-mismatch",
+                        format!(
+                            "delivery {} of signal {} ran {:?} while the registry was at rest in the model state {:?} (per-signal lists in registration order)",
+                            d.id,
+                            d.sig,
+                            r,
+                            states[lo].get(&d.sig).cloned().unwrap_or_default()
+                        ),
+                    );
+                }
             }
         }
     }
